@@ -35,7 +35,7 @@ func init() {
 		Rule:           "runs = 10-40 server-authorization posts (new, duplicate with changed ports or location, ban, un-ban attempt, bad / foreign signature, before registration) to 1-3 mutually forwarding servers with peers up or down, each server's list compared with its model after every post; then 6-20 client sync rounds against real servers (lists, GCA-signed migration orders) and a rogue server (orders for another device, outer signature by a foreign or the new GCA, inner signatures by the old GCA, replays of non-banned entries, valid relayed orders) with client restarts; after every round the client's GCA, id and server map are compared with the model of the signature rules, the three files must decode to exactly the adopted state and a restart must resume with it; non-trivial = at least one ban was learned and one migration order (valid or forged) was presented; distinct = distinct decision signatures",
 		Real:           []string{"AuthorizedServersHandler GET/POST incl. forwarding to peers", "EquipmentMigrateHandler", "sync handler", "client sync round: parser, merge, migration adoption, persistence; client start-up load"},
 		Stub:           []string{"rogue server (harness, holding a configured server's key)", "TCP/HTTP (simulated fabric)"},
-		RequiredProbes: []string{"c17.srv.ban", "c17.srv.unban-attempt", "c17.srv.changed-ports", "c17.srv.forwarded", "c17.cli.ban-learned", "c17.cli.migration-adopted", "c17.cli.forged-order", "c17.cli.restart", "c17.cli.unban-replay"},
+		RequiredProbes: []string{"c17.srv.ban", "c17.srv.unban-attempt", "c17.srv.changed-ports", "c17.srv.forwarded", "c17.cli.ban-learned", "c17.cli.migration-adopted", "c17.cli.forged-order", "c17.cli.restart", "c17.cli.unban-replay", "c17.cli.forged-dup-entry"},
 		RequiredSites:  []string{"srvauth.between", "csync.premerge", "csync.postmerge"},
 	})
 }
@@ -306,7 +306,7 @@ func runC17(m *Sim) {
 			compare("restart")
 		}
 		// What the rogue will answer if it is picked in this round.
-		rk := m.C.Int("rogue-kind", 7)
+		rk := m.C.Int("rogue-kind", 8)
 		rogueReply = func() []byte {
 			var none [4032]bool
 			tnow := uint64(time.Now().Unix())
@@ -338,6 +338,15 @@ func runC17(m *Sim) {
 				}
 				m.Probe("c17.cli.unban-replay")
 				return mk(glow.PublicKey{}, 0, list, [64]byte{})
+			case 7: // a genuine entry followed by a forged ban that repeats its key
+				s0 := clientServers[m.C.Int("dup-of", len(clientServers))]
+				good := SignServer(gca, server.AuthorizedServer{PublicKey: s0.Key.Pub, Location: s0.Loc, HttpPort: s0.HTTP, TcpPort: s0.TCP, UdpPort: s0.UDP})
+				forged := server.AuthorizedServer{PublicKey: s0.Key.Pub, Banned: true, Location: "evil.sim", HttpPort: 1, TcpPort: 1, UdpPort: 1}
+				if m.C.Chance("rogue-signs", 1, 2) {
+					forged = SignServer(rogue.Key, forged)
+				}
+				m.Probe("c17.cli.forged-dup-entry")
+				return mk(glow.PublicKey{}, 0, []server.AuthorizedServer{good, forged}, [64]byte{})
 			case 4: // an entry signed by a foreign key among good ones
 				return mk(glow.PublicKey{}, 0, []server.AuthorizedServer{SignServer(Key("gcaB"), evil)}, [64]byte{})
 			case 5: // changed ports for a known server, GCA-signed: must be ignored
